@@ -6,7 +6,8 @@ declaration space (wider wildcard / weaker processContents admit more; tighter u
 B: every (declaration pair, wildcard, attribute set) TLC enumerates is rendered - the same abstract
 declarations inline, through an attribute group, through nested attribute groups and with a global
 attribute reference - and judged on XMLSchema10 and XMLSchema11: verdict, errors non-empty when
-invalid, and for valid elements the decoded attribute dictionary with use_defaults on and off.
+invalid, and for valid elements the decoded attribute dictionary with use_defaults on and off and with
+fill_missing on and off.
 """
 from __future__ import annotations
 
@@ -77,7 +78,7 @@ KEY = {"n0": "@x", "nT": "@t:y", "nA": "@a:x", "nF": "@f:x"}
 def expected_dict(dec):
     out = {}
     for n, v in dec:
-        out[KEY[n]] = {"int1": 1, "int2": 2}.get(v, VAL.get(v))
+        out[KEY[n]] = None if v == "null" else {"int1": 1, "int2": 2}.get(v, VAL.get(v))
     return out
 
 
@@ -139,17 +140,21 @@ def judge(job):
                 continue
             if not got:
                 continue
-            for flag, key in ((True, "dec1"), (False, "dec0")):
+            prohibited = {KEY[n] for n, d in (("n0", d0), ("nT", dT)) if d["use"] == "prohibited"}
+            for flag, fill, key in ((True, False, "dec1"), (False, False, "dec0"),
+                                    (True, True, "dec1f"), (False, True, "dec0f")):
                 try:
-                    data = s.decode(xml, use_defaults=flag)
+                    data = s.decode(xml, use_defaults=flag, fill_missing=fill)
                 except Exception as e:      # noqa: BLE001
                     out.append((ver, rec, f"decode raised {type(e).__name__}: {e}"[:200], "raise"))
                     break
                 gotd = {k: v for k, v in (data or {}).items() if k.startswith("@") and
                         not k.startswith("@xmlns")} if isinstance(data, dict) else {}
+                if fill:        # a null entry for a PROHIBITED declaration is not judged (it is no attribute use)
+                    gotd = {k: v for k, v in gotd.items() if not (k in prohibited and v is None)}
                 want = expected_dict(rec[key])
                 if gotd != want:
-                    out.append((ver, rec, f"decoded attributes (use_defaults={flag}) {gotd}, "
+                    out.append((ver, rec, f"decoded attributes (use_defaults={flag}, fill_missing={fill}) {gotd}, "
                                 f"spec expects {want}", "decoded"))
                     break
     return out, n
